@@ -8,14 +8,20 @@ from vf.models import LinkModel
 
 
 @st.composite
-def walk(draw, g, lm=None, max_len=8, start_pool=None, revisit_bias=False):
+def walk(draw, g, lm=None, max_len=8, start_pool=None, revisit_bias=False, prefix=None):
     """A random walk on the link model: list of (orient, node)."""
     lm = lm or LinkModel(g["links"])
     ids = start_pool or list(g["nodes"])
-    n = draw(st.sampled_from(ids))
-    o = draw(st.sampled_from("++-"))
-    steps = [(">" if o == "+" else "<", n)]
-    want = draw(st.integers(1, max_len))
+    if prefix:
+        steps = [tuple(x) for x in prefix]
+        n = steps[-1][1]
+        o = "+" if steps[-1][0] == ">" else "-"
+        want = len(steps) + draw(st.integers(0, max_len))
+    else:
+        n = draw(st.sampled_from(ids))
+        o = draw(st.sampled_from("++-"))
+        steps = [(">" if o == "+" else "<", n)]
+        want = draw(st.integers(1, max_len))
     while len(steps) < want:
         nxt = lm.steps(n, o)
         if not nxt:
@@ -116,10 +122,10 @@ def plain_tags(draw, max_tags=3):
 
 @st.composite
 def record(draw, g, lm=None, canonical=False, name=None, max_len=8, with_cigar=True, tags=True,
-           start_pool=None, steps=None, revisit_bias=False):
+           start_pool=None, steps=None, revisit_bias=False, prefix=None):
     """An unstable '+'-strand record over a walk. Returns a dict."""
     if steps is None:
-        steps = draw(walk(g, lm, max_len=max_len, start_pool=start_pool, revisit_bias=revisit_bias))
+        steps = draw(walk(g, lm, max_len=max_len, start_pool=start_pool, revisit_bias=revisit_bias, prefix=prefix))
     lens = [g["nodes"][n]["ln"] for _, n in steps]
     total = sum(lens)
     if canonical:
